@@ -24,7 +24,8 @@ META = {
         'object.  (D3) keys written by the dumper itself (ver, name) are reported.  Also: dates/times formatted with strftime are modelled with %Y as 1-4 digits (unpadded); the list of grids is never filtered by truthiness; SortableDict.items() conformance (shared with C16.D5).  Not decided: independent-reader '
         'execution; six-decimal closeness.'
         ' Also (D1): dump() compares the mode with the MODE constants only after _parse_mode.'
-        ' Also (D4): the stamp written is isoformat() of the value itself (no conversion / re-assembly).  (D2) no scalar writer hands a re-wrapped value to the writer of another kind.'),
+        ' Also (D4): the stamp written is isoformat() of the value itself (no conversion / re-assembly).  (D2) no scalar writer hands a re-wrapped value to the writer of another kind.'
+        ' Round 9: (D1) dump() traverses its argument at most once per path (one-shot iterables of grids); (D4) no writer memo keyed by the value.'),
     'rule_text': 'obligations = shape facts + kinds x versions (inclusion in the spec language)',
     'trusted_base': ['json.dumps emits valid JSON for dict/list/str/bool/None'],
 }
